@@ -5,7 +5,9 @@
 J=${1:-4}; G=${2:-*}
 V=$(dirname $(dirname $(realpath $0)))
 OUT=/tmp/regress_$$; mkdir -p $OUT
-ls -d $V/seeded/$G 2>/dev/null | xargs -P $J -I{} bash -c 'd={}; p=$(basename $d | cut -d- -f1); SKIP_TESTS=1 '$V'/tools/validate_seed.sh $d $p > '$OUT'/s_$(basename $d).log 2>&1'
+# (the property and tier are taken from the stored meta: a few seeds are caught by the check of a neighbouring property
+#  or by the thorough tier only - their meta says so)
+ls -d $V/seeded/$G 2>/dev/null | xargs -P $J -I{} bash -c 'd={}; cmd=$(python3 -c "import json,sys;print(json.load(open(sys.argv[1]))[\"check\"][\"command\"])" $d/meta.json); p=$(echo $cmd | cut -d" " -f2); t=$(echo $cmd | cut -d" " -f4); SKIP_TESTS=1 '$V'/tools/validate_seed.sh $d $p $t > '$OUT'/s_$(basename $d).log 2>&1'
 ls -d $V/neutral/$G 2>/dev/null | xargs -P $J -I{} bash -c 'd={}; p=$(basename $d | cut -d- -f1); SKIP_TESTS=1 '$V'/tools/validate_neutral.sh $d $p > '$OUT'/n_$(basename $d).log 2>&1'
 echo "== seeds not caught:"; grep -h "^RESULT" $OUT/s_*.log 2>/dev/null | grep -v "check_rc=1" | cut -c1-160
 echo "== neutral changes with an alarm:"; grep -h "^NRESULT" $OUT/n_*.log 2>/dev/null | grep -v "check_rc=0" | cut -c1-160
